@@ -1,11 +1,14 @@
 (* C04 — a sequence gap triggers one exact ResendRequest and loses nothing received.  Statements only.
    Proved: the reaction to a too-high number outside recovery (exact request, message kept, number unchanged), that the
    same reaction inside recovery keeps the message and sends nothing, and — through C01's theorem, which covers the stash
-   drain — that kept messages are handed over only at their number, in order.  The trace-level statement "c04_check holds
-   of every model trace" (no spurious request during recovery, stash drained, recovery ends) is `_partial`: validated by
-   the correspondence stream with the same predicate. *)
+   drain — that kept messages are handed over only at their number, in order.  Trace level (every configuration, every
+   event list): clause 401 (exact request, message kept), clauses 403/404 (after every event a recovering session does not
+   expect the number of a message it keeps, nor a number beyond the range it is recovering: the stash has been drained and
+   recovery ends when the range is covered — the recovery invariant RI, ResendInvProofs.v) and clause 406 (timers leave
+   the recovery state alone) never fail on a model trace.  Clauses 402 (no spurious request while recovering) and 405 (no
+   kept application message dropped) are `_partial`: evaluated on every trace by the same predicate. *)
 From Coq Require Import ZArith List Bool.
-From QF Require Import Base.Bytes Session.Types Session.Model Session.Spec Session.LocalProofs Session.C01Proofs Session.TraceProofs Session.RecoveryProofs Session.ReactionProofs.
+From QF Require Import Base.Bytes Session.Types Session.Model Session.Spec Session.LocalProofs Session.C01Proofs Session.TraceProofs Session.RecoveryProofs Session.ReactionProofs Session.TgProofs Session.ResendInvProofs.
 Import ListNotations.
 Open Scope Z_scope.
 
@@ -55,3 +58,17 @@ Proof. exact c04_timers_never_disturb_recovery. Qed.
 Theorem c04_gap_clause_holds_on_every_trace : forall c es,
   free_of [401] (c04_check c (combine es (map obs_of (run_trace es (init_sess c))))) = true.
 Proof. exact c04_gap_never_fails. Qed.
+
+(* TRACE LEVEL: the recovery invariant.  For every configuration and every event list, after every event:
+   while the session is recovering (resend state, possibly under a pending test request) the expected number is not the
+   number of a kept message — every kept message that was next in sequence has been delivered — (403) and is not beyond
+   the end of the range being recovered — recovery ended when the range was covered — (404).
+   The invariant also carries: the chunk end is 0 or within the range, and every kept message sits under its own
+   MsgSeqNum (>= 2).  It covers the paths in which three defects were found and repaired (stash drain, chunk boundary,
+   drain-before-chunk-check). *)
+Theorem c04_recovery_invariant_on_every_trace : forall c es,
+  free_of [403; 404] (c04_check c (combine es (map obs_of (run_trace es (init_sess c))))) = true.
+Proof. exact c04_recovery_invariant_never_fails. Qed.
+
+Theorem c04_recovery_invariant_reachable : forall c es, Forall RI (run_trace es (init_sess c)).
+Proof. exact trace_ri. Qed.
